@@ -414,6 +414,72 @@ pub fn c06_replace(ctx: &mut Ctx, t: &Term) {
       }
     }
   }
+  // columns=false: every output line carries (file, line) of the first mapped piece on it
+  let segs_f: Vec<InnerSeg> = match io.stream(false, false) {
+    Err(e) => return report_panic(ctx, inner, "inner stream(false)", &e),
+    Ok(s) => {
+      let mut v = Vec::new();
+      let mut off = 0usize;
+      for view in s.views() {
+        if view.text.is_empty() {
+          continue;
+        }
+        v.push(InnerSeg { start: off, len: view.text.len(), attr: norm(&view.attr) });
+        off += view.text.len();
+      }
+      if off != inner_text.len() {
+        return;
+      }
+      v
+    }
+  };
+  let seg_f_of = |i: usize| segs_f.iter().find(|s| i >= s.start && i < s.start + s.len);
+  // expected per output char: Some(Some(file,line)) mapped, Some(None) unmapped, None don't-care
+  let exp_f: Vec<Option<Option<(String, u32)>>> = items
+    .iter()
+    .map(|it| match it {
+      Item::Inner(i) => Some(seg_f_of(*i).and_then(|s| s.attr.as_ref()).map(|a| (a.file.clone(), a.line))),
+      Item::Repl(_, p, _) if *p >= inner_text.len() => None,
+      Item::Repl(_, p, _) => Some(seg_f_of(*p).and_then(|s| s.attr.as_ref()).map(|a| (a.file.clone(), a.line))),
+    })
+    .collect();
+  let nlines = pos.last().map(|p| p.0).unwrap_or(0);
+  let want_line = |l: u32| -> Option<Option<(String, u32)>> {
+    // None = undetermined (a don't-care piece comes first or no mapped piece at all next to one)
+    for (oi, e) in exp_f.iter().enumerate() {
+      if pos[oi].0 != l {
+        continue;
+      }
+      match e {
+        None => return None,
+        Some(Some(a)) => return Some(Some(a.clone())),
+        Some(None) => {}
+      }
+    }
+    Some(None)
+  };
+  let got_map = match obs.map(false) {
+    Ok(m) => m,
+    Err(e) => return report_panic(ctx, t, "map(false)", &e),
+  };
+  let got_stream = match obs.stream(false, false) {
+    Ok(s) => s.views(),
+    Err(e) => return report_panic(ctx, t, "stream(false)", &e),
+  };
+  ctx.transitions += 2;
+  for l in 1..=nlines {
+    let Some(want) = want_line(l) else { continue };
+    let by_map = got_map.as_ref().and_then(|m| m.resolve_line(l)).map(|a| (a.file, a.line));
+    let by_stream = got_stream.iter().find(|v| v.gl == l && !v.text.is_empty() && v.attr.is_some()).and_then(|v| v.attr.as_ref()).map(|a| (a.file.clone(), a.line));
+    if by_map != want {
+      ctx.violation("replace_map_lines", String::new(), None, || case_json(t), t.size(), format!("line {l} of {out_text:?}: first mapped piece {want:?}, ReplaceSource map(false) says {by_map:?}"));
+      break;
+    }
+    if by_stream != want {
+      ctx.violation("replace_stream_lines", String::new(), None, || case_json(t), t.size(), format!("line {l} of {out_text:?}: first mapped piece {want:?}, ReplaceSource stream(false) says {by_stream:?}"));
+      break;
+    }
+  }
   ctx.traces_validated += 1;
 }
 
